@@ -40,8 +40,8 @@ CONTAINERS = ["list", "tuple", "set", "node", "dictkeys", "ndarray", "range", "p
 
 
 def plan(tier):
-    n = 500 if tier == "quick" else 30000
-    return [("start:" + s, n) for s in SIM_LIST] + [("conflict", 600 if tier == "quick" else 20000)]
+    n = 3000 if tier == "quick" else 100000
+    return [("start:" + s, n) for s in SIM_LIST] + [("conflict", 4000 if tier == "quick" else 100000)]
 
 
 def gen(rng, simname):
